@@ -399,8 +399,14 @@ func (ipcp *IPCPStateMachine) processConfigureOptions(opts []LCPOption) (ack, na
 				continue
 			}
 
+			// No address assigned to this session: nothing the peer proposes can be acknowledged
+			if ipcp.config.PeerIP == nil {
+				reject = append(reject, opt)
+				continue
+			}
+
 			// Peer requests specific IP - check if it matches our assignment
-			if ipcp.config.PeerIP != nil && !requestedIP.Equal(ipcp.config.PeerIP) {
+			if !requestedIP.Equal(ipcp.config.PeerIP) {
 				// NAK with our assigned IP
 				nakOpt := LCPOption{
 					Type: IPCPOptIPAddress,
